@@ -577,7 +577,11 @@ impl Template {
                 }
                 (Width, FirstStyle | Literal) if !buf.is_empty() => {
                     if let Some(TemplatePart::Placeholder { width, .. }) = parts.last_mut() {
-                        *width = Some(buf.parse().unwrap());
+                        // a width that does not fit the field type is a malformed template, not a bug
+                        *width = Some(
+                            buf.parse()
+                                .map_err(|_| TemplateError { next: c, state })?,
+                        );
                         buf.clear();
                     }
                 }
